@@ -124,7 +124,7 @@ def source_focus():
     return views, everything, changed
 
 
-FORBIDDEN = re.compile(r"\bsorry\b|\badmit\b|^\s*axiom\s|native_decide|bv_decide|implemented_by|\bunsafe\s|maxHeartbeats\s+0", re.M)
+FORBIDDEN = re.compile(r"\bsorry\b|\badmit\b|^\s*axiom\s|native_decide|bv_decide|implemented_by|\bunsafe\s|maxHeartbeats\s+0\b", re.M)
 
 
 def lean_obligations(pid, thorough=False):
@@ -181,6 +181,158 @@ def lean_obligations(pid, thorough=False):
         res["checker_cmd"] += " && lake env leanchecker SF.Props.%s" % pid
     return res
 
+
+
+# ------------------------------------------------------------------ translator tie (tools/rs2lean.py + SF/GenEq)
+# generated view -> names of the same view in the job generators
+TIE_VIEWS = {"Sma": ["sma"], "Ema": ["ema", "emaa"], "Cumulative": ["cum"], "Roc": ["roc"], "GTE": ["gte"], "LTE": ["lte"],
+             "LnReturn": ["lnret", "lnret_d"], "Drawdown": ["drawdown", "drawdown_d"], "WelfordRolling": ["wroll", "wroll_d"],
+             "Echo": ["echo"], "Constant": ["const"], "Tanh": ["tanh"], "Add": ["add"], "Subtract": ["sub"], "Multiply": ["mul"],
+             "Divide": ["div"], "Min": ["min"], "Max": ["max"], "SuperSmoother": ["ss"], "WelfordOnline": ["wo"], "Vst": ["vst"],
+             "Vsct": ["vsct"], "Rsi": ["rsi"], "MyRSI": ["myrsi"], "BinaryEntropy": ["bent"], "RoofingFilter": ["roof"],
+             "Alma": ["alma", "almac"]}
+# SF/GenEq/Transfer.lean: (theorem, generated view) per property -- `Realises (generated view over Echo) (batch definition)`
+TRANSFER = {
+    "C02": [("sma_rust", "Sma"), ("cumulative_rust", "Cumulative"), ("min_rust", "Min"), ("max_rust", "Max"), ("roc_rust", "Roc"),
+            ("entropy_rust", "BinaryEntropy"), ("welford_rust", "WelfordOnline"), ("vst_rust", "Vst"), ("vsct_rust", "Vsct")],
+    "C04": [("ema_rust", "Ema")],
+    "C05": [("rsi_rust", "Rsi"), ("myrsi_rust", "MyRSI")],
+    "C11": [("superSmoother_rust", "SuperSmoother"), ("roofing_rust", "RoofingFilter")],
+    "C13": [("welfordRolling_rust", "WelfordRolling")],
+}
+# a generated view that embeds another generated view (its tie file imports the other's generated file)
+TIE_DEPENDS = {"Vst": ["WelfordOnline"], "Vsct": ["WelfordOnline"], "RoofingFilter": ["SuperSmoother"]}
+
+
+def translator_tie():
+    """Regenerate lean/SF/Gen/*.lean from the Rust text of the repository's working tree (tools/rs2lean.py) and re-check the
+    theorems `SF.GenEq.<View>.tie` (generated view = model view on every input, for every child view).
+    Returns dict(proved=[...], broken={view: why}, untranslatable={view: why}, wall_s, checker_cmd)."""
+    t0 = time.time()
+    res = dict(proved=[], broken={}, untranslatable={}, changed=[],
+               checker_cmd="python3 tools/rs2lean.py && cd lean && lake build SF.GenEq.<View> ... (one module per view)")
+    if os.environ.get("VERIF_REPO_DIR") and os.path.realpath(os.environ["VERIF_REPO_DIR"]) != "/repo":
+        # an isolated evaluation against a scratch copy of the repository must not rewrite the generated files of /verif
+        res["skipped"] = "VERIF_REPO_DIR points at a scratch copy; the translator tie is only run against /repo itself"
+        return res
+    r = subprocess.run([sys.executable, os.path.join(VERIF, "tools", "rs2lean.py")], capture_output=True, text=True)
+    try:
+        rep = json.loads(r.stdout)
+    except Exception:
+        res["broken"] = {v: "translator crashed: " + (r.stderr or r.stdout)[-300:] for v in TIE_VIEWS}
+        res["wall_s"] = round(time.time() - t0, 1)
+        return res
+    todo = []
+    for v in TIE_VIEWS:
+        st = rep.get(v, {})
+        if st.get("status") != "generated":
+            res["untranslatable"][v] = st.get("reason", "not generated")
+        else:
+            todo.append(v)
+            if st.get("changed"):
+                res["changed"].append(v)
+    for v, deps in TIE_DEPENDS.items():
+        for d in deps:
+            if d in res["untranslatable"] and v in todo:
+                todo.remove(v)
+                res["untranslatable"][v] = "embeds %s, which is untranslatable" % d
+    def build(vs, limit):
+        """lake build of the tie modules of `vs`; returns (returncode or None on timeout, output)"""
+        import signal
+        p = subprocess.Popen(["lake", "build"] + ["SF.GenEq." + v for v in vs], cwd=LEAN, stdout=subprocess.PIPE, stderr=subprocess.STDOUT,
+                             text=True, start_new_session=True)
+        try:
+            out, _ = p.communicate(timeout=limit)
+            return p.returncode, out
+        except subprocess.TimeoutExpired:
+            try:
+                os.killpg(p.pid, signal.SIGKILL)
+            except Exception:
+                pass
+            p.communicate()
+            return None, ""
+    # the views whose generated text changed (or that embed one that did) are re-proved under a time limit: a proof script that no
+    # longer fits can run for minutes before it gives up, and a check must not hang on it
+    dirty = [v for v in todo if v in res["changed"] or any(d in res["changed"] for d in TIE_DEPENDS.get(v, []))]
+    limit = float(os.environ.get("VERIF_TIE_S", 100))
+    def committed_text(v):
+        """is the generated file the one committed in /verif (the text the proofs were written against)?"""
+        try:
+            r = subprocess.run(["git", "show", "HEAD:lean/SF/Gen/%s.lean" % v], cwd=VERIF, capture_output=True, text=True)
+            strip = lambda t: re.sub(r"\(sha256 \w+\)", "", t)
+            return r.returncode == 0 and strip(r.stdout) == strip(open(os.path.join(LEAN, "SF", "Gen", v + ".lean")).read())
+        except Exception:
+            return False
+    known_good = [v for v in dirty if all(committed_text(x) for x in [v] + TIE_DEPENDS.get(v, []))]   # e.g. right after a run on a modified tree
+    dirty = [v for v in dirty if v not in known_good]
+    groups = [([v for v in todo if v not in dirty], 1200.0)] + [([v], limit) for v in dirty]
+    for vs, lim in groups:
+        if not vs:
+            continue
+        rc, out = build(vs, lim)
+        if rc == 0:
+            res["proved"] += vs
+            continue
+        if rc is None:
+            for v in vs:
+                res["broken"][v] = "SF.GenEq.%s.tie did not re-check within %.0f s after the generated text changed" % (v, lim)
+            continue
+        failed = {}
+        for m in re.finditer(r"error: SF/(Gen|GenEq)/(\w+)\.lean:(\d+):\d+: ([^\n]*)", out):
+            failed.setdefault(m.group(2), "%s/%s.lean:%s: %s" % (m.group(1), m.group(2), m.group(3), m.group(4)[:200]))
+        for m in re.finditer(r"^- SF\.(?:Gen|GenEq)\.(\w+)\s*$", out, re.M):
+            failed.setdefault(m.group(1), "module failed to build")
+        for v in vs:
+            bad = [failed[x] for x in [v] + TIE_DEPENDS.get(v, []) if x in failed]
+            if bad:
+                res["broken"][v] = bad[0]
+            elif failed:
+                res["proved"].append(v)
+            else:
+                res["broken"][v] = "lake build failed: " + out[-300:]
+    # axioms of the tie theorems that re-checked (same audit as for the property theorems)
+    if res["proved"]:
+        os.makedirs(WORK, exist_ok=True)
+        af = os.path.join(WORK, "TieAudit.lean")
+        open(af, "w").write("".join("import SF.GenEq.%s\n" % v for v in sorted(res["proved"])) +
+                            "".join("#print axioms SF.GenEq.%s.tie\n" % v for v in sorted(res["proved"])))
+        r = subprocess.run(["lake", "env", "lean", af], cwd=LEAN, capture_output=True, text=True)
+        out = r.stdout + r.stderr
+        ax = {}
+        for m in re.finditer(r"'(\S+)' depends on axioms: \[([^\]]*)\]", out, re.S):
+            ax[m.group(1)] = {a.strip() for a in m.group(2).replace("\n", " ").split(",") if a.strip()}
+        for m in re.finditer(r"'(\S+)' does not depend on any axioms", out):
+            ax[m.group(1)] = set()
+        for v in list(res["proved"]):
+            a = ax.get("SF.GenEq.%s.tie" % v)
+            if a is None or a - ACCEPTED_AXIOMS:
+                res["proved"].remove(v)
+                res["broken"][v] = "axiom audit of SF.GenEq.%s.tie failed: %s" % (v, "no report" if a is None else sorted(a - ACCEPTED_AXIOMS))
+        res["axioms"] = sorted(set().union(*[ax.get("SF.GenEq.%s.tie" % v, set()) for v in res["proved"]])) if res["proved"] else []
+    # end-to-end corollaries (SF/GenEq/Transfer.lean): property theorems transferred to the generated definitions
+    need = set(v for vs in TRANSFER.values() for _, v in vs)
+    if need <= set(res["proved"]):
+        r = subprocess.run(["lake", "build", "SF.GenEq.Transfer"], cwd=LEAN, capture_output=True, text=True)
+        names = [n for vs in TRANSFER.values() for n, _ in vs]
+        if r.returncode == 0:
+            af = os.path.join(WORK, "TransferAudit.lean")
+            open(af, "w").write("import SF.GenEq.Transfer\n" + "".join("#print axioms SF.GenEq.%s\n" % n for n in names))
+            r = subprocess.run(["lake", "env", "lean", af], cwd=LEAN, capture_output=True, text=True)
+            out = r.stdout + r.stderr
+            okn = []
+            for m in re.finditer(r"'SF\.GenEq\.(\w+)' depends on axioms: \[([^\]]*)\]", out, re.S):
+                ax = {a.strip() for a in m.group(2).replace("\n", " ").split(",") if a.strip()}
+                if not (ax - ACCEPTED_AXIOMS):
+                    okn.append(m.group(1))
+            for m in re.finditer(r"'SF\.GenEq\.(\w+)' does not depend on any axioms", out):
+                okn.append(m.group(1))
+            res["transfer"] = {pid: [n for n, _ in vs if n in okn] for pid, vs in TRANSFER.items()}
+        else:
+            res["transfer_error"] = (r.stdout + r.stderr)[-300:]
+    else:
+        res["transfer_skipped"] = "tie lost for " + ", ".join(sorted(need - set(res["proved"])))
+    res["wall_s"] = round(time.time() - t0, 1)
+    return res
 
 # ------------------------------------------------------------------ encodings
 
